@@ -4,7 +4,8 @@ import TapkeeVerif.Props.C19
 
 `Gen.spePartnersInPlace` is regenerated from `include/tapkee/routines/spe.hpp` by every run of `check.py C19`.
 Since the repair of F-SPE-LOCAL (partners kept in a vector of their own) it is `false`, and `spe_indices_perm_local`
-below is the FULL statement for the code as it stands.  A regression to the in-place overwrite regenerates `true`;
+below is the FULL statement for the code as it stands; likewise `Gen.speAlphaZeroGuard` (`true` since the repair of
+F-SPE-ZERODIST) and `spe_alpha_defined` / `spe_run_total_current`.  A regression to the in-place overwrite regenerates `true`;
 this file then no longer compiles (broken proof obligation) while `Props/C19.lean` — with the refutation
 `spe_indices_perm_local_refuted` for that shape — still does, and the corpus case `corpus/C19/f-spe-local.case`
 re-finds the failing input on the real code.
@@ -17,5 +18,26 @@ open TapkeeVerif TapkeeVerif.Spe
     permutation of `0..N-1`. -/
 theorem spe_indices_perm_local : LocalPermClaim Gen.spePartnersInPlace :=
   spe_indices_perm_local_current.mpr rfl
+
+/-- Global strategy of the working tree (`Gen.speAlphaZeroGuard`, regenerated from the assignment to `alpha` in
+    `spe.hpp`): the normaliser is defined for EVERY distance callback — coinciding samples (maximum distance 0) included
+    — and in the local strategy it is the constant 1.  Compiles only on the repaired shape (F-SPE-ZERODIST, c1f47d5): a
+    regression to the unguarded division breaks this obligation and `corpus/C19/f-spe-zerodist.case` re-finds the NaN
+    embedding. -/
+theorem spe_alpha_defined (N : Nat) (dist : Nat → Nat → Rat) (sqrtO : Rat → Rat) (g : Bool) :
+    ∃ a, alphaOf Gen.speAlphaZeroGuard g N dist sqrtO = .ok a :=
+  spe_alpha_zero_distances.2 N dist sqrtO g
+
+/-- … hence, on the working tree, the hypothesis about `alpha` of `spe_run_total` is vacuous: the full model returns
+    a configuration for every stream as soon as `tolerance > 0`, `sqrt ≥ 0` and (local strategy) the neighbour lists and
+    floor values are valid. -/
+theorem spe_run_total_current {K : Type} [Field K] [LinearOrder K] [IsStrictOrderedRing K] (inp : Input K)
+    (hshape : inp.inPlace = Gen.spePartnersInPlace ∧ inp.zeroGuard = Gen.speAlphaZeroGuard)
+    (hY : inp.y0.size = inp.N) (htol : 0 < inp.tol) (hsq : ∀ x, 0 ≤ inp.sqrtO x)
+    (hs : ∀ t, (inp.shuffle t).Perm (List.range inp.N))
+    (hlocal : inp.global = false → ∃ k, kOf false inp.nb = .ok k ∧ ValidNeighbors inp.nb inp.N k ∧
+      ∀ c, 0 ≤ floorPick inp k c ∧ floorPick inp k c < k) :
+    ∃ st, run inp = .ok st :=
+  spe_run_total inp hY htol hsq hs (fun _ => Or.inl (by rw [hshape.2]; rfl)) hlocal
 
 end TapkeeVerif.C19
